@@ -30,7 +30,8 @@ RULE = ("schedule = which thread runs at each yield point; yield points are ever
         "end used is empty and every object ever created is idle in the pool or had after_remove invoked exactly "
         "once; in (b) every socket is closed exactly once or belongs to an idle pooled client, and no two threads "
         "did I/O on one socket at the same time. Non-trivial: a pre-emption occurred inside a pool / pooled-client "
-        "frame and another thread entered a pool method afterwards. A scripted wall clock that steps backwards between releases (readings 100 .. 50 .. 85, idle timeout 30). (h) the same pool driven through a HashClient(use_pooling=True) shared by the threads, the hash client's own code pre-empted as well (its failover bookkeeping is not judged, the pool behind it is). Configurations marked warn_error run with every warning turned into an error. shutdown (the server permits it) and version run next to ordinary calls. A pool that grew large: 1500 to 3000 (thorough 12 000) objects checked out at once come back and idle out together, or are cleared or destroyed.")
+        "frame and another thread entered a pool method afterwards. A scripted wall clock that steps backwards between releases (readings 100 .. 50 .. 85, idle timeout 30). (h) the same pool driven through a HashClient(use_pooling=True) shared by the threads, the hash client's own code pre-empted as well (its failover bookkeeping is not judged, the pool behind it is). Configurations marked warn_error run with every warning turned into an error. shutdown (the server permits it) and version run next to ordinary calls. A pool that grew large: 1500 to 3000 (thorough 12 000) objects checked out at once come back and idle out together, or are cleared or destroyed."
+        + ' TCP keepalive configured and one of its socket options refused on an established connection; a creator that fails for one checkout, also one that has just found idle objects timed out. The large-pool part runs on a lock that reports a second acquire by its holder.')
 MANIFEST = {
     "category": "exploration",
     "technique": "systematic schedule exploration with a harness-owned deterministic thread scheduler (bytecode-level yield points via sys.settrace): exhaustive enumeration of all schedules up to a pre-emption bound for the two-thread configurations, Hypothesis-drawn schedules for larger ones; invariant and end-state oracles",
